@@ -120,6 +120,11 @@ package config
 //@   requires loaderOK(cl) && cl.dst != nil
 //@   modifies *
 //@   ensures loaderOK(cl) && cl.dst == old(cl.dst) && cl.imports == old(cl.imports)
+// mergo panics on maps it cannot combine (YAML map[interface{}]interface{} into JSON map[string]interface{}):
+// the panic is recovered here and returned as an error (fix D23)
+//@ func mergeImported
+//@   requires dst != nil
+//@   modifies *
 //@ func (*Loader).readFile
 //@   nomod
 //@ func (*Loader).readURL
@@ -162,8 +167,8 @@ package config
 //@     ghost nestedFailed = nestedFailed || result#1 != nil
 //@   callsite loadDir
 //@     ghost nestedFailed = nestedFailed || result#1 != nil
-//@   callsite mergo.Merge
-//@     assume loaderOK(cl) && cl.imports == old(cl.imports) && (forall f string :: old(cl.imports[f]) ==> cl.imports[f]) // mergo.Merge is handed &config and the imported map only: it does not touch the loader
+//@   callsite mergeImported
+//@     assume loaderOK(cl) && cl.imports == old(cl.imports) && (forall f string :: old(cl.imports[f]) ==> cl.imports[f]) // mergeImported (mergo.Merge) is handed &config and the imported map only: it does not touch the loader
 
 //@ func (*Loader).loadDir
 //@   ghostlocal nestedFailed bool
@@ -179,5 +184,5 @@ package config
 //@   callsite load
 //@     requires #C17.only-unvisited !cl.imports[arg0]
 //@     ghost nestedFailed = nestedFailed || result#1 != nil
-//@   callsite mergo.Merge
-//@     assume loaderOK(cl) && cl.imports == old(cl.imports) && (forall f string :: old(cl.imports[f]) ==> cl.imports[f]) // mergo.Merge is handed &config and the imported map only: it does not touch the loader
+//@   callsite mergeImported
+//@     assume loaderOK(cl) && cl.imports == old(cl.imports) && (forall f string :: old(cl.imports[f]) ==> cl.imports[f]) // mergeImported (mergo.Merge) is handed &config and the imported map only: it does not touch the loader
